@@ -148,7 +148,11 @@ def run(eng: Engine, ck: Check):
               g is not None, 'the `_send` call is not dominated by `not self._is_closing`',
               construct='send guarded by _is_closing')
     rl = eng.func(CONN, 'DataConnection._message_reader_loop')
-    cbs = calls_on(rl.node, '_perform_message_callback')
+    # the dispatch: a call of the helper that performs the network callback, or the callback itself when written in place
+    dc_ = eng.cls('DataConnection', CONN)
+    cb_helpers = {m_.name for m_ in dc_.methods.values() if m_ is not rl and calls_on(m_.node, 'on_message_received')}
+    cbs = [x for x in calls_in(rl.node) if (call_name(x) in cb_helpers and isinstance(x.func, ast.Attribute) and unparse(x.func.value) == 'self')
+           or call_name(x) == 'on_message_received']
     ck.floor('R-C10-AFTER-CLOSED.dispatch', len(cbs), 1)
     for call in cbs:
         g = eng.guarded_by(rl, call, lambda e, pol: (not pol) and mentions_attr(e, '_is_closing'), no_suspension=True)
